@@ -422,7 +422,7 @@ def fragmentItems (c : Ctx) (fid : Nat) : Outcome (List Item) := do
 def enumItem (c : Ctx) (e : StoredEnum) : Item :=
   let n := c.o.normalization
   let name := n.enumName c.cs e.name
-  let variantIdent (v : String) := keywordReplace (n.enumVariant c.cs v)
+  let variantIdent (v : String) := enumVariantIdent n c.cs v
   let idents := e.variants.map variantIdent
   .gqlEnum name (enumDerives c.o) c.o.serdePath idents
     (e.variants.map fun v => (variantIdent v, v))
